@@ -16,6 +16,7 @@ import (
 //	\x01  any byte (0..255)
 //	\x02  a decimal digit or the letter 'a'   (IPv4 fields, ports)
 //	\x03  a hexadecimal digit, either case    (second and third byte of a percent escape)
+//	\x04  a byte of the DID syntax: idchar (ALPHA / DIGIT / "." / "-" / "_"), ':' or '%'
 //
 // Every other byte is literal. Lengths are therefore concrete per template, content symbolic.
 // ---------------------------------------------------------------------------------------------
@@ -24,10 +25,15 @@ const (
 	hAny = "\x01"
 	hDig = "\x02"
 	hHex = "\x03"
+	hSyn = "\x04"
 )
 
 func hIsHexByte(c byte) bool {
 	return (c >= '0' && c <= '9') || (c >= 'A' && c <= 'F') || (c >= 'a' && c <= 'f')
+}
+
+func hIsSyntaxByte(c byte) bool {
+	return (c >= 'a' && c <= 'z') || (c >= 'A' && c <= 'Z') || (c >= '0' && c <= '9') || c == '.' || c == '-' || c == '_' || c == ':' || c == '%'
 }
 
 func hFromTemplate(t string) string {
@@ -43,6 +49,10 @@ func hFromTemplate(t string) string {
 		case 3:
 			s := vString(1)
 			vAssume(hIsHexByte(s[0]))
+			out += s
+		case 4:
+			s := vString(1)
+			vAssume(hIsSyntaxByte(s[0]))
 			out += s
 		default:
 			out += t[i : i+1]
